@@ -295,13 +295,25 @@ impl<'a> Ref<'a> {
             Stmt::Exit => return Ok(Flow::Exit),
             Stmt::Continue => return Ok(Flow::Continue),
             Stmt::Return => return Ok(Flow::Return),
-            Stmt::FbCall(inst, args) => {
+            Stmt::FbCall(inst, args, outs) => {
                 // evaluate arguments in the caller's scope, by value
                 let mut vals = Vec::new();
                 for (n, e) in args {
                     vals.push((n.clone(), self.eval(e, sc)?, e.ty()));
                 }
                 self.run_fb(inst, vals, sc)?;
+                // bound outputs are copied to their targets when the body completed (normally or through RETURN)
+                for (n, target) in outs {
+                    let v = match sc.get(inst) {
+                        Some(Cell::Inst(_, m)) => m.get(n).map(|(_, v)| *v),
+                        _ => None,
+                    };
+                    if let (Some(v), Lv::Var(name, _)) = (v, target) {
+                        if let Some(Cell::Scalar(_, slot)) = sc.get_mut(name) {
+                            *slot = v;
+                        }
+                    }
+                }
             }
             Stmt::FbCallNoArgs(inst) => {
                 self.run_fb(inst, vec![], sc)?;
